@@ -134,6 +134,26 @@ theorem decl_local_function (fuel : Nat) (br : List (Expr × List Stmt)) (els : 
   | false => rfl
   | true => simp [hg, h] at this
 
+/-- SOURCE / EXECUTE 'text' / EXECUTE prepared run their statements as if written in place: on the same processor
+    (same returnVal), in the CURRENT block, the flow handed on — so whatever they declare is as local as a direct
+    declaration (decl_local…, decl_only_in_current_block and shadowing cover `inline` like every other statement) -/
+theorem inline_runs_in_current_block (fuel : Nat) (ss : List Stmt) (rv : Option SVal) (st : St) :
+    stmtI (fuel + 1) (.inline ss) rv st = executeI fuel ss rv st ∧ stmtS (fuel + 1) (.inline ss) st = blockS fuel ss st :=
+  ⟨by simp only [stmtI], by simp only [stmtS]⟩
+
+/-- a declaration made through SOURCE / EXECUTE inside an IF branch that declares nothing itself is gone after END IF,
+    and an outer variable of the same name is shadowed, not "redeclared" -/
+theorem inline_decl_is_local (x : Nat) (v w : SVal) (k : Nat) (rv : Option SVal) (b : Block) (bs : List Block) (out : List SVal)
+    (hx : aget x b.vars = some w) :
+    let r := stmtI (k + 7) (.ifs [(.lit (.tern .T), [.inline [.decl x (.lit v)]])] []) rv ⟨b :: bs, out⟩
+    r.outcome = .normal ∧ r.st = ⟨b :: bs, out⟩ := by
+  intro r
+  have hr := stmt_refines (k + 7) (.ifs [(.lit (.tern .T), [.inline [.decl x (.lit v)]])] []) rv ⟨b :: bs, out⟩
+  suffices h : stmtS (k + 7) (.ifs [(.lit (.tern .T), [.inline [.decl x (.lit v)]])] []) ⟨b :: bs, out⟩ = (.normal, ⟨b :: bs, out⟩) by
+    rw [h] at hr
+    exact ⟨hr.2, hr.1⟩
+  simp [stmtS, ifS, evalS, SVal.ternary, inBlock, blockS, St.push, St.pop, declareVar, hx]
+
 /-- any statement: only the CURRENT block can gain names; all enclosing blocks keep or lose theirs -/
 theorem decl_only_in_current_block (fuel : Nat) (s : Stmt) (rv : Option SVal) (st : St) :
     StackLE (stmtI fuel s rv st).st.blocks.tail st.blocks.tail := by
@@ -432,6 +452,12 @@ example : execImpl 200 [
       .print (.call 0 []), .decl 0 (i 7), .foreach 0 false [.int 3, .int 4] [.ifs [(.bin .eq (.var 0) (i 3), [.cont])] [], .print (.var 0)],
       .print (.var 0), .print (.var 1)]
     = ⟨[.int 0, .int 1, .int 11, .int 4, .int 4], .err .undeclaredVar, [[(0, .int 4)]]⟩ := by decide
+
+/-- VAR @v0 := 1; IF TRUE THEN EXECUTE 'VAR @v0 := 5; PRINT @v0;'; END IF; PRINT @v0;
+    IF TRUE THEN SOURCE file(VAR @v1 := 2; EXIT;); PRINT 9; END IF; PRINT @v1;   — 5, 1, then EXIT ends the procedure -/
+example : execImpl 100 [.decl 0 (i 1), .ifs [(tt, [.inline [.decl 0 (i 5), .print (.var 0)]])] [], .print (.var 0),
+      .ifs [(tt, [.inline [.decl 1 (i 2), .exit], .print (i 9)])] [], .print (.var 1)]
+    = ⟨[.int 5, .int 1], .exit, [[(0, .int 1)]]⟩ := by decide
 
 /-- a function declared in a block is gone after it -/
 example : (execImpl 100 [.ifs [(tt, [.declFn 0 [] [.ret (i 1)], .print (.call 0 [])])] [], .print (.call 0 [])])
